@@ -142,7 +142,7 @@ func ChildMain() bool {
 		reply(Resp{Err: "new node: " + err.Error()})
 		os.Exit(3)
 	}
-	if err := node.WaitForLeader(10 * time.Second); err != nil {
+	if err := node.WaitForLeader(90 * time.Second); err != nil {
 		reply(Resp{Err: "no leader: " + err.Error()})
 		os.Exit(3)
 	}
@@ -305,8 +305,10 @@ func (c *Child) read() (Resp, error) {
 	select {
 	case x := <-ch:
 		return x.r, x.err
-	case <-time.After(60 * time.Second):
-		return Resp{}, fmt.Errorf("no answer from the node within 60s (wedged)")
+	case <-time.After(240 * time.Second):
+		// requests are answered in milliseconds; four minutes without an answer is a wedged server even
+		// on a badly overloaded machine
+		return Resp{}, fmt.Errorf("no answer from the node within 240s (wedged)")
 	}
 }
 
